@@ -24,6 +24,9 @@ func vRunWith(fsys *vFs, strat db.UpdateStrategy) (planned, generated int, err e
 // second run plans and generates nothing and leaves every file byte-identical.
 func vhRerunNoopFs() {
 	vClockWindow(1709640000, 600)
+	// the configurations have explicit dates: the local zone decides their
+	// instants (and how they are written in the hashed configuration)
+	vLocalZone([]int{0, 3600, -34200}[vChoose("zone", 3)])
 	fsys := vNewFs()
 	fsys.advance = true
 	ents := []vEnt{{"root", "root", "", ""}, {"sub", "sub", "root", ""}, {"leaf", "leaf", "sub", ""}}
